@@ -20,20 +20,24 @@ causal order of dot stores for MVRegister / ORSet / ORMap (context grows; nothin
 comes back).  Purity holds by construction (Lean functions cannot modify their arguments, `clone` is
 the identity); on the Go side it is checked by the harness (before/after dumps, mutation of results).
 
-Outcome: the statement is FALSE for the current code in two places (both replayed on the real code,
-corpus/C38/witnesses.case): LWWRegister.Merge is not commutative when two registers carry the same
-(timestamp, node) stamp with different values (C38-F1), and ORMap.Merge is not associative on values
-when a key is removed in one operand and concurrently set in another (C38-F2).  `C38_refuted` proves
-the negation with explicit witnesses, `C38_partial` is the strongest true statement: everything else,
-LWW for families in which a stamp determines the value, ORMap associativity on the key set always and
-on values under the decidable guard `ORMap.noResurrect`.
+Outcome: the statement is FALSE for the current code in one place (replayed on the real code,
+corpus/C38/witnesses.case): ORMap.Merge is not associative on values when a key is removed in one
+operand and concurrently set in another (C38-F2).  `C38_refuted` proves the negation with an explicit
+witness, `C38_partial` is the strongest true statement: everything else, and ORMap associativity on the
+key set always and on values under the decidable guard `ORMap.noResurrect`.
+History (C38-F1, fixed): LWWRegister.Merge resolves a full (timestamp, node) tie in favour of its
+receiver, and Set used to let one node write two values under one stamp (two Sets within one clock
+reading), so Merge was not commutative on reachable registers.  Set now orders such a write right
+after the stored one; `LWW_join` proves the laws for every reachable system of replicas that write
+under their own node id (as for MVRegister).  `LWW_comm_shared_node_refuted` records why the node-id
+contract is needed: two replicas writing under ONE node id still produce one stamp for two values.
 
 Tie to /repo: differential run of the real crdt package against these models after every operation
 (tools/props/c38.py, harness/verifdrv/c38), and the same laws evaluated on the implementation's own
 merges by Spec.C38.judgeOutput.
 -/
 import GoaktVerif.Lemmas.C38.Counters
-import GoaktVerif.Lemmas.C38.LWW
+import GoaktVerif.Lemmas.C38.LWWReach
 import GoaktVerif.Lemmas.C38.MVReach
 import GoaktVerif.Lemmas.C38.ORSetReach
 import GoaktVerif.Lemmas.C38.ORMapReach
@@ -57,7 +61,7 @@ def C38_full : Prop :=
   JoinLaws GCounter.Reachable GCounter.merge eqvGC leGC ∧
   JoinLaws PNCounter.Reachable PNCounter.merge eqvPN lePN ∧
   JoinLaws Flag.Reachable Flag.merge eqvFlag leFlag ∧
-  JoinLaws LWWRegister.Reachable LWWRegister.merge eqvLWW leLWW ∧
+  (∀ w, LWWRegister.World.Reachable w → JoinLaws w.has LWWRegister.merge eqvLWW leLWW) ∧
   (∀ w, MVRegister.World.Reachable w → JoinLaws w.has MVRegister.merge eqvMV leMV) ∧
   JoinLaws ORSet.Reachable ORSet.merge eqvOS leOS ∧
   JoinLaws OMReach ORMap.merge (eqvOM eqvGC) (leOM leGC) ∧
@@ -86,8 +90,13 @@ theorem LWW_assoc_idem_infl :
     (∀ x y : LWWRegister, leLWW x (x.merge y) = true ∧ leLWW y (x.merge y) = true) :=
   ⟨LWW.assoc, LWW.idem, LWW.infl⟩
 
-/-- C38-F1 -/
-theorem LWW_comm_refuted :
+/-- LWW: a join on the registers of every reachable system of replicas writing under their own node id -/
+theorem LWW_join (w : LWWRegister.World) (h : LWWRegister.World.Reachable w) :
+    JoinLaws w.has LWWRegister.merge eqvLWW leLWW := LWW.joinLaws_world h
+
+/-- without the node-id contract (per-value reachability: two replicas may write under one node id)
+    commutativity fails; this is the precondition of `LWW_join`, not a defect -/
+theorem LWW_comm_shared_node_refuted :
     ¬ (∀ x y, LWWRegister.Reachable x → LWWRegister.Reachable y → eqvLWW (x.merge y) (y.merge x)) :=
   LWW.comm_refuted
 
@@ -159,10 +168,6 @@ theorem ORMap_assoc_refuted :
 /-! ### refutation of the full statement and the strongest true part -/
 
 theorem C38_refuted : ¬ C38_full := fun h =>
-  LWW_comm_refuted fun x y hx hy => h.2.2.2.1.comm x y hx hy
-
-/-- also refuted independently through the ORMap clause -/
-theorem C38_refuted' : ¬ C38_full := fun h =>
   ORMap_assoc_refuted fun x y z hx hy hz => h.2.2.2.2.2.2.1.assoc x y z hx hy hz
 
 /-- everything that is true of the current code -/
@@ -170,7 +175,8 @@ def C38_partial_stmt : Prop :=
   JoinLaws GCounter.Reachable GCounter.merge eqvGC leGC ∧
   JoinLaws PNCounter.Reachable PNCounter.merge eqvPN lePN ∧
   JoinLaws Flag.Reachable Flag.merge eqvFlag leFlag ∧
-  -- LWW: guard = a stamp determines the value within the family of registers considered
+  (∀ w, LWWRegister.World.Reachable w → JoinLaws w.has LWWRegister.merge eqvLWW leLWW) ∧
+  -- LWW, also outside reachable systems: any family of registers in which a stamp determines the value
   (∀ S : LWWRegister → Prop, (∀ x y, S x → S y → StampsAgree x y) →
       JoinLaws S LWWRegister.merge eqvLWW leLWW) ∧
   (∀ w, MVRegister.World.Reachable w → JoinLaws w.has MVRegister.merge eqvMV leMV) ∧
@@ -188,7 +194,7 @@ def C38_partial_stmt : Prop :=
 
 theorem C38_partial : C38_partial_stmt := by
   have om := ORMap_comm_idem_infl GCounter.valueLaws
-  refine ⟨GCounter_join, PNCounter_join, Flag_join, LWW_join_unique_stamps, MV_join, ORSet_join,
+  refine ⟨GCounter_join, PNCounter_join, Flag_join, LWW_join, LWW_join_unique_stamps, MV_join, ORSet_join,
     fun x y hx hy => om.1 x y (OMReach_wf hx) (OMReach_wf hy),
     fun x hx => om.2.1 x (OMReach_wf hx),
     fun x y hx hy => om.2.2 x y (OMReach_wf hx) (OMReach_wf hy),
@@ -211,6 +217,16 @@ example : ∃ w : MVRegister.World, MVRegister.World.Reachable w ∧
   have r1 : MVRegister.World.Reachable (w0.setReplica 1 ((w0.replica 1).set 1 5)) := .set 1 5 .init
   have r2 := MVRegister.World.Reachable.set 2 6 r1
   refine ⟨_, r2, MVRegister.new.set 1 5, MVRegister.new.set 2 6, Or.inr ⟨1, by decide⟩, Or.inr ⟨2, by decide⟩, by decide⟩
+
+/-- a reachable LWW world: replica 1 writes twice within one clock reading (the second write is ordered
+    after the first), replica 2 writes concurrently under the same timestamp -/
+example : ∃ w : LWWRegister.World, LWWRegister.World.Reachable w ∧
+    (w.replica 1).timestamp = 10 ∧ (w.replica 1).value = some 3 ∧ (w.replica 2).timestamp = 9 := by
+  let w0 : LWWRegister.World := ⟨fun _ => LWWRegister.new, []⟩
+  have r1 := LWWRegister.World.Reachable.set 1 2 9 .init (by decide)
+  have r2 := LWWRegister.World.Reachable.set 1 3 9 r1 (by decide)
+  have r3 := LWWRegister.World.Reachable.set 2 4 9 r2 (by decide)
+  exact ⟨_, r3, by decide, by decide, by decide⟩
 
 /-- a family of LWW registers in which a stamp determines the value: two writes with different stamps -/
 example : ∀ x y, (x = lwwA ∨ x = LWWRegister.new.set 3 10 1) → (y = lwwA ∨ y = LWWRegister.new.set 3 10 1) →
